@@ -1,6 +1,7 @@
 package vanguard
 
 import (
+	"encoding/base64"
 	"errors"
 	"net/http"
 
@@ -197,4 +198,42 @@ func hGrpcEndRoundTrip() {
 	_, hasStatus := tr["Grpc-Status"]
 	_, hasMsg := tr["Grpc-Message"]
 	verifAssert(!hasStatus && !hasMsg, "status keys removed from application trailers")
+}
+
+// hConnectDetails: error details carried by a Connect backend's error (type name + unpadded standard base64
+// of the bytes) survive the conversion to the internal error and back to the Connect wire form: every detail
+// is kept, with its type and its exact bytes (all byte strings up to the bound, including the ones whose
+// base64 form contains '+' or '/').
+func hConnectDetails() {
+	maxLen := 3
+	if verifTier() == 1 {
+		maxLen = 6 // (4+ bytes go through base64's 32/64-bit fast paths: ~80 s of solver time per length)
+	}
+	n := verifChoose("len", maxLen+1)
+	data := nondetBytes("detail", n)
+	second := nondetBytes("detail2", 1)
+	wire := &connectWireError{
+		Code:    connect.CodeNotFound,
+		Message: "m",
+		Details: []connectWireDetail{
+			{Type: "pkg.Detail", Value: base64.RawStdEncoding.EncodeToString(data)},
+			{Type: "pkg.Other", Value: base64.RawStdEncoding.EncodeToString(second)},
+		},
+	}
+	cerr := wire.toConnectError()
+	details := cerr.Details()
+	verifObsInt("details", int64(len(details)))
+	verifReach("converted")
+	verifAssert(cerr.Code() == connect.CodeNotFound && cerr.Message() == "m", "C04: code and message survive next to details")
+	verifAssert(len(details) == 2, "C04: every error detail of a Connect error survives")
+	if len(details) != 2 {
+		return
+	}
+	verifObsBytes("detail-bytes", details[0].Bytes())
+	verifAssert(details[0].Type() == "pkg.Detail" && details[1].Type() == "pkg.Other", "C04: error detail types survive")
+	verifAssert(bytesEq(details[0].Bytes(), data) && bytesEq(details[1].Bytes(), second), "C04: error detail bytes survive")
+	// and back to the Connect wire form
+	back := connectErrorToWireError(cerr, nil)
+	verifAssert(len(back.Details) == 2 && back.Details[0].Type == "pkg.Detail" && back.Details[0].Value == wire.Details[0].Value &&
+		back.Details[1].Value == wire.Details[1].Value, "C04: error details re-encode to the same Connect wire form")
 }
